@@ -26,6 +26,14 @@ def conv_stream(seed, n, op, oracles, classes=True, max_depth=3):
     return sc
 
 
+def with_oracles(scens, oracles, op=None):
+    for s in scens:
+        s['oracles'] = list(oracles)
+        if op:
+            s['op'] = op
+    return scens
+
+
 def union_stream(seed, n, op='from_data', oracles=('c11',)):
     g = random.Random(seed)
     out = []
@@ -184,14 +192,18 @@ PLUGS = {
                 project=proj_verdict_value, oracles=[], disagreement_is_failure=True),
     'C02': dict(streams=lambda seed, tier: matrix_stream(seed) + conv_stream(seed, sizes(tier, 500, 10000), 'from_data', []),
                 project=proj_verdict_value, oracles=[], disagreement_is_failure=True, exhaustive_part='matrix'),
-    'C03': dict(streams=lambda seed, tier: conv_stream(seed, sizes(tier, 1500, 30000), 'try_collect', ['c03']),
+    'C03': dict(streams=lambda seed, tier: conv_stream(seed, sizes(tier, 1500, 30000), 'try_collect', ['c03']) +
+                with_oracles(gen.scenarios_cond(seed, sizes(tier, 700, 10000)), ['c03'], op='try_collect') +
+                with_oracles(gen.scenarios_shapes(seed, sizes(tier, 500, 8000), op='try_collect'), ['c03']),
                 project=proj_try_collect, oracles=['c03'], disagreement_is_failure=False),
     'C04': dict(streams=lambda seed, tier: conv_stream(seed, sizes(tier, 1500, 30000), 'from_data', ['c04']) +
                 [dict(s, oracles=['c04']) for s in matrix_stream(seed)],
                 project=proj_verdict_value, oracles=['c04'], disagreement_is_failure=False),
-    'C07': dict(streams=lambda seed, tier: conv_stream(seed, sizes(tier, 1500, 30000), 'try_collect', ['c07']),
+    'C07': dict(streams=lambda seed, tier: conv_stream(seed, sizes(tier, 1500, 30000), 'try_collect', ['c07']) +
+                with_oracles(gen.scenarios_shapes(seed, sizes(tier, 800, 12000), op='try_collect'), ['c07']),
                 project=proj_full, oracles=['c07'], disagreement_is_failure=True),
-    'C08': dict(streams=lambda seed, tier: conv_stream(seed, sizes(tier, 1500, 30000), 'render', ['c08']),
+    'C08': dict(streams=lambda seed, tier: conv_stream(seed, sizes(tier, 1500, 30000), 'render', ['c08']) +
+                with_oracles(gen.scenarios_shapes(seed, sizes(tier, 1000, 15000), op='render'), ['c08']),
                 project=proj_full, oracles=['c08'], disagreement_is_failure=True),
     'C09': dict(streams=lambda seed, tier: conv_stream(seed, sizes(tier, 700, 10000), 'from_data', []) +
                 conv_stream(seed + 1, sizes(tier, 400, 10000), 'try_collect', []) +
